@@ -241,6 +241,9 @@ impl<C: Config, Q: Query> Snapshot<C, Q> {
     ) -> CalleeCheckDecision {
         // skip if not dirty
         // however, we can't skip if pedantic_repair is true
+        #[cfg(feature = "verif_hooks")]
+        crate::engine::verif::yield_point("repair::before_check_callee").await;
+
         let edge_is_dirty = engine.is_edge_dirty(*query_id, *callee).await;
 
         if !edge_is_dirty
@@ -287,6 +290,9 @@ impl<C: Config, Q: Query> Snapshot<C, Q> {
                 )
                 .await;
         }
+
+        #[cfg(feature = "verif_hooks")]
+        crate::engine::verif::yield_point("repair::after_callee_repair").await;
 
         let mut repair_transitive_firewall_callees = false;
 
